@@ -137,10 +137,14 @@ def oracle(case):
         if c is None:
             raise HarnessError("steered placement lost a normal")
         d, an, off = c
-        want = {"distance": geomref.ST_MAX, "normals": geomref.ST_NORMALS, "offset": geomref.ST_OFFSET}[case["mode"]] + case["side"] * case["delta"]
-        got = {"distance": d, "normals": an, "offset": off}[case["mode"]]
-        if abs(got - want) > 1e-7:
-            raise HarnessError(f"steered {case['mode']} is {got!r}, intended {want!r}")
+        if case["mode"] == "copy":
+            if an > 1e-4 or d > 4.0 or off > 41.0:
+                raise HarnessError(f"translated copy is not a clear stacking: distance {d}, normals {an}, offset {off}")
+        else:
+            want = {"distance": geomref.ST_MAX, "normals": geomref.ST_NORMALS, "offset": geomref.ST_OFFSET}[case["mode"]] + case["side"] * case["delta"]
+            got = {"distance": d, "normals": an, "offset": off}[case["mode"]]
+            if abs(got - want) > 1e-7:
+                raise HarnessError(f"steered {case['mode']} is {got!r}, intended {want!r}")
     ds, info = evaluate(s3)
     case["_info4"] = info
     return ds
